@@ -10,7 +10,8 @@
    Submit = Transaction.Verify(): accepted iff the recovered key's account address equals the
    `from` field, all 21 address bytes.  One action per call. *)
 EXTENDS Integers, Sequences, FiniteSets, TLC
-CONSTANTS Keys,           \* key pairs, e.g. {"k1", "k2"}
+CONSTANTS TxKinds,        \* transaction formats with a signature: "v3", "v2" (same rule: verifySignature of either)
+          Keys,           \* key pairs, e.g. {"k1", "k2"}
           Msgs,           \* message hashes (transaction ids), e.g. {"this", "other"}
           VForms, RForms, SForms, Lens,   \* signature treatments (see below)
           FromForms,      \* how the from field relates to the claimed sender's address
@@ -59,15 +60,15 @@ Accepts(claimed, ff, m, sg) ==
   /\ ff = "addr"                                 \* ... and the from field is exactly its account address
 
 Rec(op, claimed, ff, m, sg, k, hlen, res, definite) ==
-  [op |-> op, claimed |-> claimed, ff |-> ff, m |-> m, sig |-> sg, k |-> k, hlen |-> hlen, res |-> res, definite |-> definite]
+  [kind |-> "", op |-> op, claimed |-> claimed, ff |-> ff, m |-> m, sig |-> sg, k |-> k, hlen |-> hlen, res |-> res, definite |-> definite]
 NoSig == Sig("", "", "ok", "ok", "ok", 65)
 Init == hist = <<>>
 Can == Len(hist) < MaxOps
 \* a transaction with id m claims sender `claimed` (from field in form ff) and carries signature sg
-Submit(claimed, ff, m, sg) ==
-  /\ hist' = Append(hist, Rec("submit", claimed, ff, m, sg, "", 32,
-                              IF ~Parses(sg) THEN "reject-parse" ELSE IF Accepts(claimed, ff, m, sg) THEN "accept" ELSE "reject",
-                              Definite(sg) \/ ~Accepts(claimed, ff, m, sg)))
+Submit(kind, claimed, ff, m, sg) ==
+  /\ hist' = Append(hist, [Rec("submit", claimed, ff, m, sg, "", 32,
+                               IF ~Parses(sg) THEN "reject-parse" ELSE IF Accepts(claimed, ff, m, sg) THEN "accept" ELSE "reject",
+                               Definite(sg) \/ ~Accepts(claimed, ff, m, sg)) EXCEPT !.kind = kind])
 \* crypto.NewSignature(hash, key) then RecoverPublicKey(hash') and Verify(hash', pub)
 RecoverOp(sg, m, hlen) ==
   /\ Parses(sg) /\ sg.len # 0
@@ -81,7 +82,7 @@ RoundTrip(k, m, fmt) ==
                               IF fmt = "rs" THEN "error" ELSE k, TRUE))       \* res: what Recover yields afterwards
 
 \* (the bound is tested before the arguments are enumerated)
-Next == \/ Can /\ \E c \in Keys, ff \in FromForms, m \in Msgs, sg \in Sigs : Submit(c, ff, m, sg)
+Next == \/ Can /\ \E kd \in TxKinds, c \in Keys, ff \in FromForms, m \in Msgs, sg \in Sigs : Submit(kd, c, ff, m, sg)
         \/ Can /\ \E sg \in Sigs, m \in Msgs, h \in HashLens : RecoverOp(sg, m, h)
         \/ Can /\ \E sg \in Sigs, m \in Msgs, k \in Keys, h \in HashLens : VerifyOp(sg, m, k, h)
         \/ Can /\ \E k \in Keys, m \in Msgs, f \in {"rsv", "vrs", "rs"} : RoundTrip(k, m, f)
